@@ -68,6 +68,11 @@ class Mpo(MatrixProduct):
                         phop[r"b^\dagger b"] * ph.omega[0]
                         + phop[r"b^\dagger + b"] * ph.term10
                     )
+                    if not ph.is_simple:
+                        # the frequency of the mode changes upon excitation: 1/2 (w_e^2 - w_g^2) x^2
+                        h_mo = h_mo + phop[r"(b^\dagger + b)^2"] * (
+                            (ph.omega[1] ** 2 - ph.omega[0] ** 2) / (4 * ph.omega[0])
+                        )
 
                     w, v = scipy.linalg.eigh(h_mo)
                     h_mo = np.diag(np.exp(x * w))
